@@ -365,11 +365,17 @@ func (s *State) evalMapLiteral(node *ast.MapLiteral) object.Object {
 	for _, keyNode := range node.Order {
 		valueNode := node.Pairs[keyNode]
 		key := s.Eval(keyNode)
+		if key.Type() == object.ERROR {
+			return key
+		}
 		if !object.Equals(key, key) {
 			log.Warnf("key %s is not hashable", key.Inspect())
 			return s.NewError("key " + key.Inspect() + " is not hashable")
 		}
 		value := s.Eval(valueNode)
+		if value.Type() == object.ERROR {
+			return value
+		}
 		result = result.Set(key, value)
 	}
 	return result
